@@ -46,6 +46,13 @@ int hx_aead(const char *op, int argc, char **argv, FILE *o) {
         rc2 = a->enc(c2, &clen, b[0].p, b[0].n, b[1].n ? b[1].p : NULL, b[1].n, NULL, b[2].p, b[3].p);
         if (rc != 0 || rc2 != 0) fprintf(o, "RC=%d/%d ", rc, rc2);
         if (maclen != a->ab || clen != b[0].n + a->ab || memcmp(c, c2, b[0].n) || memcmp(mac, c2 + b[0].n, a->ab)) fputs("FORMS-DIFFER ", o);
+        {   /* round trip through both decrypt forms */
+            unsigned char *m2 = (unsigned char *) malloc(b[0].n + 1); unsigned long long ml = 0;
+            if (a->decd(m2, NULL, c, b[0].n, mac, b[1].n ? b[1].p : NULL, b[1].n, b[2].p, b[3].p) != 0 || memcmp(m2, b[0].p, b[0].n)) fputs("ROUNDTRIP-DETACHED-FAIL ", o);
+            memset(m2, 0, b[0].n);
+            if (a->dec(m2, &ml, NULL, c2, clen, b[1].n ? b[1].p : NULL, b[1].n, b[2].p, b[3].p) != 0 || ml != b[0].n || memcmp(m2, b[0].p, b[0].n)) fputs("ROUNDTRIP-COMBINED-FAIL ", o);
+            free(m2);
+        }
         hx_put_hex(o, c, b[0].n); fputc(' ', o); hx_put_hex(o, mac, a->ab);
         free(c); free(c2); freeb(b, 4); return 0;
     }
@@ -87,6 +94,12 @@ static int sb_common(int xc, const char *sfx, int argc, char **argv, FILE *o) {
         else { rc = crypto_secretbox_detached(c, mac, b[0].p, b[0].n, b[1].p, b[2].p); rc2 = crypto_secretbox_easy(e, b[0].p, b[0].n, b[1].p, b[2].p); }
         if (rc || rc2) fprintf(o, "RC=%d/%d ", rc, rc2);
         if (memcmp(e, mac, 16) || memcmp(e + 16, c, b[0].n)) fputs("FORMS-DIFFER ", o);
+        {
+            unsigned char *m2 = (unsigned char *) malloc(b[0].n + 1);
+            int r1 = xc ? crypto_secretbox_xchacha20poly1305_open_easy(m2, e, b[0].n + 16, b[1].p, b[2].p) : crypto_secretbox_open_easy(m2, e, b[0].n + 16, b[1].p, b[2].p);
+            if (r1 != 0 || memcmp(m2, b[0].p, b[0].n)) fputs("ROUNDTRIP-FAIL ", o);
+            free(m2);
+        }
         hx_put_hex(o, c, b[0].n); fputc(' ', o); hx_put_hex(o, mac, 16);
         free(c); free(e); freeb(b, 3); return 0;
     }
